@@ -224,3 +224,8 @@ def ada_raises(ctx, st, exc):
 UNITS.append(Unit("C07", "jsonargparse._core:ActionsContainer.add_argument", ada_setup, ada_post, ada_raises, max_paths=20000, expect_cover=("return", "raise:ValueError"),
                   trusted=["argparse's add_argument (super()) creates the action: dest = name without leading dashes, '-' -> '_'", "add_class_arguments / _move_parser_actions / prepare_add_argument by contract",
                            "is_dataclass_like / is_supported_typehint classify the type"]))
+
+# the class / dataclass styles declare their members through the signature machinery: key = nested_key + "." + parameter name, option "--" + key
+import dataclasses as _dc  # noqa: E402
+from contracts.c12 import UNITS as _C12_UNITS  # noqa: E402
+UNITS += [_dc.replace(u, prop="C07") for u in _C12_UNITS if u.target.endswith(("_add_signature_arguments", "_add_signature_parameter"))]
